@@ -221,6 +221,7 @@ def run_chains(ctx, res, nsets):
             key = "vtt_tag_sequence_equal" if tags == [[bool(a), b] for a, b in ev] else "vtt_tag_sequence_differs"
             res["distribution"][key] = res["distribution"].get(key, 0) + 1      # information: the order i,u,b is not the property
         run_layout_split(ctx, res, specs)
+        run_options_layouts(ctx, res, specs)
 
 
 def run_layout_split(ctx, res, specs):
@@ -250,6 +251,91 @@ def run_layout_split(ctx, res, specs):
         if any(o[1] == [] for o in outs):
             res["violations"].append(dict(base, kind="vtt-tags", document=out.v,
                                           what="WebVTT: a cue of a caption with two layout groups has unbalanced i/b/u tags"))
+
+
+OPTION_SETS = [
+    {"write_inline_positioning": True},
+    {"write_inline_positioning": True, "relativize": False},
+    {"write_inline_positioning": True, "video_width": 640, "video_height": 360},
+    {"write_inline_positioning": True, "fit_to_screen": False},
+    {"relativize": False},
+    {"video_width": 1280, "video_height": 720, "fit_to_screen": False},
+    {},
+]
+
+
+def _layout_pool(px):
+    from pycaption.geometry import Layout, Point, Size, UnitEnum, Alignment, HorizontalAlignmentEnum, VerticalAlignmentEnum
+    U = UnitEnum.PIXEL if px else UnitEnum.PERCENT
+    k = 4 if px else 1
+    return [Layout(origin=Point(Size(10 * k, U), Size(10 * k, U))),
+            Layout(origin=Point(Size(20 * k, U), Size(70 * k, U)), extent=None),
+            Layout(alignment=Alignment(HorizontalAlignmentEnum.LEFT, VerticalAlignmentEnum.TOP))]
+
+
+def options_layout_set(specs, assign, px):
+    """a caption set whose captions and nodes (text, break AND style nodes) carry layouts from a pool of three Layout
+    OBJECTS shared across captions; assign[i] = (layout of the caption and of its first nodes, cut or None, layout after cut)"""
+    L = _layout_pool(px)
+    cs = G.capset(specs)
+    for cap, (a, cut, b) in zip(all_caption_objects(cs), assign):
+        cap.layout_info = L[a]
+        for i, node in enumerate(cap.nodes):
+            node.layout_info = L[a] if cut is None or i <= cut else L[b]
+    return cs
+
+
+def judge_options_layouts(res, specs, assign, px, wname, opts, base):
+    W = {"DFXP": DFXPWriter, "DFXP-single": SinglePositioningDFXPWriter, "DFXP-legacy": LegacyDFXPWriter}[wname]
+    cs = options_layout_set(specs, assign, px)
+    out = impl.call(lambda: W(**opts).write(cs))
+    if not isinstance(out, Ok):
+        res["violations"].append(dict(base, kind="writer-raises", what=f"{wname}({opts}) raised {impl.ERR_NAMES.get(out.code, out.code)} on shared layouts"))
+        return
+    if not markup_ok(W, out.v):
+        res["violations"].append(dict(base, kind="markup-unbalanced", document=out.v, what=f"{wname}({opts}): unbalanced span markup"))
+        return
+    rd = impl.call(lambda: DFXPReader().read(out.v))
+    if not isinstance(rd, Ok):
+        res["violations"].append(dict(base, kind="reader-raises", document=out.v, what=f"DFXPReader raised on the output of {wname}({opts})"))
+        return
+    final = all_captions(rd.v)
+    if len(final) != len(specs):
+        res["violations"].append(dict(base, kind="cue-count", document=out.v, what=f"{wname}({opts}): {len(specs)} captions in, {len(final)} out"))
+        return
+    outs = oracle_batch([(1102, [[True, False, False], G.wire_nodes(a), G.wire_nodes(o)]) for a, o in zip(specs, final)] +
+                        [(1100, G.wire_nodes(o)) for o in final])
+    n = len(specs)
+    for i in range(n):
+        if outs[i] != 1:
+            res["violations"].append(dict(base, kind="flags-differ", observed=final[i], caption=i, document=out.v,
+                                          what=f"{wname}({opts}) -> DFXP with shared layouts: italic characters differ after the round trip"))
+        if outs[n + i] != 1:
+            res["violations"].append(dict(base, kind="reader-unbalanced", observed=final[i], caption=i,
+                                          what=f"{wname}({opts}) -> DFXP: unbalanced style nodes"))
+
+
+def run_options_layouts(ctx, res, specs):
+    """DFXP writers with constructor options (inline positioning, relativize, video size, fit_to_screen) on captions whose
+    nodes - style nodes included - carry layouts shared across the captions of the set"""
+    rng = ctx.rng
+    opts = rng.choice(OPTION_SETS)
+    px = ("video_width" in opts or opts.get("relativize") is False) and rng.random() < 0.4
+    assign = []
+    for spec in specs:
+        cuts = [i for i, n in enumerate(spec) if n[0] == "b" and depth_at(spec, i) == 0 and 0 < i < len(spec) - 1]
+        a = rng.randint(0, 2)
+        if cuts and rng.random() < 0.4:
+            assign.append((a, rng.choice(cuts), rng.randint(0, 2)))
+        else:
+            assign.append((a, None, a))
+    for wname in (["DFXP"] if opts else ["DFXP", "DFXP-single", "DFXP-legacy"]):
+        base = {"fmt": wname, "input": specs, "assign": assign, "px": px, "opts": opts, "replay": "options-layouts",
+                "shape": "writer-options-shared-layouts"}
+        res["evaluations"] += len(specs)
+        key = "options_layouts_" + wname
+        res["distribution"][key] = res["distribution"].get(key, 0) + len(specs)
+        judge_options_layouts(res, specs, assign, px, wname, opts, base)
 
 
 def all_caption_objects(cs):
@@ -459,6 +545,11 @@ def replay(ctx, rec):
             outs = oracle_batch([(1102, [list(mask), G.wire_nodes(a), G.wire_nodes(o)]) for a, o in zip(specs, final)] +
                                 [(1100, G.wire_nodes(o)) for o in final])
             return any(o != 1 for o in outs), final
+    if kind == "options-layouts":
+        specs = [[tuple(n) for n in s] for s in rec["input"]]
+        assign = [tuple(a) for a in rec["assign"]]
+        judge_options_layouts(r, specs, assign, rec["px"], rec["fmt"], dict(rec["opts"]), {"fmt": rec["fmt"]})
+        return bool(r["violations"]), [v["what"] for v in r["violations"]][:3]
     if kind == "vtt-layout":
         spec = [tuple(n) for n in rec["input"][0]]
         ctx.rng.choice = lambda l: rec["cut"] if rec["cut"] in l else l[0]
